@@ -91,6 +91,7 @@ int main(int argc, char** argv) {
     BI_CFG = cfg; Unit u; u.name = cfg ? "alg.bandinvx" : "alg.bandinv"; u.total = bandinv_total();
     u.fmt = [=](long long k) { BI_CFG = cfg; return bandinv_fmt(k); }; u.f = [=](long long k) { BI_CFG = cfg; bandinv_unit_case(k); }; run_unit(u, cfg ? 256 : 64);
   }
+  { Unit u; u.name = "alg.idx"; u.total = idx_total(); u.fmt = idx_fmt; u.f = idx_case; run_unit(u, 4); }
   { Unit u; u.name = "alg.cond"; u.total = cond_total(); u.fmt = cond_fmt; u.f = cond_case; run_unit(u, 4); }
 #endif
 #if LIBMC15_PART == 3
